@@ -3,13 +3,14 @@
    every history of cycle/start/stop. *)
 From Coq Require Import List Arith ZArith Bool Lia.
 Import ListNotations.
-Require Import FV.Gen.C14 FV.C14.Model FV.C14.Lemmas FV.C14.HasStates FV.C14.HasStatesLemmas.
+Require Import FV.Gen.C14 FV.C14.Model FV.C14.Lemmas FV.C14.HasStates FV.C14.HasStatesLemmas FV.C14.Conc FV.C14.ConcLemmas.
 
 (* obligations on the facts regenerated from /repo (Gen/C14.v) *)
 Theorem C14_source_facts :
   inner_loop_is_range_maxloops = true /\ cleanup_swap_under_lock = true /\ task_pickup_under_lock = true /\
   start_only_posts = true /\ stop_only_posts = true /\ 0 < maxloops /\ 0 < outer_rounds /\
-  hasstates_shapes = true /\ start_resets_idle_status = true /\
+  hasstates_shapes = true /\ start_resets_idle_status = true /\ start_assigns_idle_status = false /\
+  pickup_reads_under_lock = true /\ next_task_written_only_by_start_stop_cycle = true /\
   (status_idle < status_busy)%Z /\ (status_busy < status_error)%Z.
 Proof. repeat split; try reflexivity; apply Nat.ltb_lt; reflexivity. Qed.
 
@@ -64,16 +65,53 @@ Proof.
   intros W ops i Q s Hn. apply stop_makes_inactive; [exact Q|apply C14_source_facts|apply RInv_reachable|exact Hn].
 Qed.
 
+(* ---- two real threads: the cycling thread picks a request up (test of next_task; acquire the lock; read; clear;
+   release) while a second thread runs start()/stop() (acquire; write; release), every line an atomic step, for EVERY
+   schedule (list of who moves next; a thread waiting for the lock does not move).  pickup_reads_under_lock is the fact
+   read off StateMachine.cycle: the value of `action` is read inside `with self._lock` together with the clearing. *)
+Theorem C14_no_request_lost : forall sched,
+  no_request_lost (crun pickup_reads_under_lock sched).
+Proof. intros; apply no_request_lost_all_schedules. Qed.
+
+(* the same statement unfolded: a request written to next_task is taken by the cycling thread, or still pending, or
+   followed by a later request *)
+Theorem C14_no_request_lost_explicit : forall sched later t earlier,
+  c_posted (crun pickup_reads_under_lock sched) = later ++ t :: earlier ->
+  In t (c_picked (crun pickup_reads_under_lock sched)) \/ c_nt (crun pickup_reads_under_lock sched) = Some t \/ later <> [].
+Proof. intros sched later t earlier. apply no_request_lost_all_schedules. Qed.
+
+Theorem C14_picked_requests_were_posted : forall sched t,
+  In t (c_picked (crun pickup_reads_under_lock sched)) -> In t (c_posted (crun pickup_reads_under_lock sched)).
+Proof. intros sched t; apply picked_were_posted. Qed.
+
+Theorem C14_pending_request_is_newest : forall sched t,
+  c_nt (crun pickup_reads_under_lock sched) = Some t -> exists l, c_posted (crun pickup_reads_under_lock sched) = t :: l.
+Proof. intros sched t; apply pending_is_newest. Qed.
+
+(* the sequential model of the theorems above is one of these schedules: the hook at the acquisition of the lock in
+   Model.pickup = the second thread runs a complete start()/stop() between the test and the acquisition *)
+Theorem C14_model_pickup_is_a_schedule : forall W s t0,
+  next_task s = Some t0 ->
+  let c' := fold_left (cstep pickup_reads_under_lock)
+                      (LCycle :: env_post W s ++ [LCycle; LCycle; LCycle; LCycle]) (cinit (next_task s)) in
+  exists t, next_task (hook W s) = Some t /\ c_picked c' = [t] /\ c_nt c' = None /\ c_lock c' = None /\ c_cyc c' = COut /\
+            exists b, In (EvPickup (task_id t) b) (trace (pickup W s)).
+Proof. intros W s t0. apply model_pickup_is_a_schedule. Qed.
+
 (* ---- the HasStates layer (frappy/states.py): status of a module built on the state machine.
    scode: the status code attached to each state function (@status_code), all of them busy codes or none;
-   operations start_machine / stop_machine / cycle_machine issued between cycles, any behaviour program. *)
+   start_machine / stop_machine / cycle_machine issued between cycles AND start_machine / stop_machine at every hook
+   inside a cycle (body of a state function, body of a cleanup function, transition callback, time.time(), the
+   acquisitions of the lock): what the world posts at hook n is such a call; guarded W: a stop request at a hook comes
+   from stop_machine (if sm.is_active: ...).  Any behaviour program, any cleanup functions. *)
 Definition gcodes : codes := {| c_idle := status_idle; c_busy := status_busy; c_error := status_error |}.
+Definition guarded (W : world) : Prop := forall n, w_guard W n = true.
 
 (* the machine inside the layer is exactly the state machine of the theorems above *)
 Theorem C14_layer_runs_the_core_machine : forall scode W h o,
-  core (hstep gcodes scode start_resets_idle_status W maxloops outer_rounds h o) =
+  core (hstep gcodes scode start_resets_idle_status start_assigns_idle_status W maxloops outer_rounds h o) =
   match o with
-  | HStart tid f kw => post (core h) (TStart tid f (Some 0) kw)
+  | HStart tid f cl kw => post (core h) (TStart tid f (Some cl) kw)
   | HStop tid => if is_active (core h) then post (core h) (TStop tid) else core h
   | HCycle => cycle W maxloops outer_rounds (core h)
   end.
@@ -82,25 +120,48 @@ Proof. intros. apply core_hstep. Qed.
 (* busy from the start request until the machine has finished: after every history, while a state is set or a
    start request is pending the reported status code is a busy code *)
 Theorem C14_status_busy_while_running : forall scode W ops,
-  quiet W ->
+  guarded W ->
   (forall f c, scode f = Some c -> busyb gcodes c = true) ->
-  J gcodes (hrun gcodes scode start_resets_idle_status W maxloops outer_rounds ops).
+  J gcodes (hrun gcodes scode start_resets_idle_status start_assigns_idle_status W maxloops outer_rounds ops).
 Proof. intros scode W ops Q Hsc. apply busy_while_running; [exact Q|exact Hsc|reflexivity]. Qed.
 
-(* ... and its final or stopped status afterwards: whenever the machine is inactive and no start is pending, the
-   reported status is the idle status (the one set by final_status, the stopped status, the error status) *)
-Theorem C14_status_final_when_inactive : forall scode W ops,
-  quiet W ->
-  K gcodes (hrun gcodes scode start_resets_idle_status W maxloops outer_rounds ops).
+(* ... and its final or stopped status afterwards.  Full statement (refuted, Refuted.v, finding C14/stop-while-finishing):
+     forall scode W ops, guarded W -> let h := hrun ... ops in
+       is_active (core h) = false -> pending_start (core h) = false -> st h = idle_or_default gcodes (idle h)
+   Proved with the guard late h = false: no stop_machine took effect inside the transition callback of a finishing
+   transition since the last start request (K unfolds to exactly this implication). *)
+Theorem C14_status_final_when_inactive_except_stop_while_finishing : forall scode W ops,
+  guarded W ->
+  K gcodes (hrun gcodes scode start_resets_idle_status start_assigns_idle_status W maxloops outer_rounds ops).
 Proof. intros scode W ops Q. apply inactive_status_is_final. exact Q. Qed.
+
+(* after a run has finished the reported status is that run's OWN final status (own: what the run itself set through
+   final_status, its error handler or a stop request during it, default (IDLE, '')) - never one written by an earlier
+   run.  start_machine may come at any hook and between cycles, stop_machine between cycles. *)
+Theorem C14_status_is_own_final_status : forall scode W ops,
+  guarded W -> (forall n i, w_env W n <> Some (TStop i)) ->
+  let h := hrun gcodes scode start_resets_idle_status start_assigns_idle_status W maxloops outer_rounds ops in
+  is_active (core h) = false -> pending_start (core h) = false -> st h = own h.
+Proof.
+  intros scode W ops Q N. apply status_is_own_final_no_stop_at_hooks; [exact Q|reflexivity|reflexivity|exact N].
+Qed.
+
+(* ... and with stop_machine at hooks as well, except for the finding *)
+Theorem C14_status_is_own_final_status_except_stop_while_finishing : forall scode W ops,
+  guarded W ->
+  let h := hrun gcodes scode start_resets_idle_status start_assigns_idle_status W maxloops outer_rounds ops in
+  late h = false -> is_active (core h) = false -> pending_start (core h) = false -> st h = own h.
+Proof. intros scode W ops Q. apply status_is_own_final; [exact Q|reflexivity|reflexivity]. Qed.
 
 (* the final status of an earlier run is not inherited (repaired by ceac852): error in run 1, plain Finish in run 2 *)
 Definition hsW : world :=
-  {| w_s := fun n => if Nat.ltb n 5 then BRaise else BFinish; w_c := fun _ => CNone; w_env := fun _ => None |}.
+  {| w_s := fun n => if Nat.ltb n 7 then BRaise else BFinish; w_c := fun _ => CNone; w_env := fun _ => None;
+     w_guard := fun _ => true |}.
 Example C14_status_not_inherited :
-  let h1 := hrun gcodes (fun _ => None) start_resets_idle_status hsW maxloops outer_rounds [HStart 0 0 []; HCycle] in
-  let h2 := hrun gcodes (fun _ => None) start_resets_idle_status hsW maxloops outer_rounds
-              [HStart 0 0 []; HCycle; HStart 2 0 []; HCycle] in
+  let h1 := hrun gcodes (fun _ => None) start_resets_idle_status start_assigns_idle_status hsW maxloops outer_rounds
+              [HStart 0 0 0 []; HCycle] in
+  let h2 := hrun gcodes (fun _ => None) start_resets_idle_status start_assigns_idle_status hsW maxloops outer_rounds
+              [HStart 0 0 0 []; HCycle; HStart 2 0 0 []; HCycle] in
   fst (st h1) = status_error /\ is_active (core h1) = false /\
   st h2 = (status_idle, TEmpty) /\ is_active (core h2) = false.
 Proof. vm_compute. repeat split; reflexivity. Qed.
@@ -110,7 +171,7 @@ Proof. vm_compute. repeat split; reflexivity. Qed.
 Definition demoW : world :=
   {| w_s := fun n => if Nat.ltb n 6 then BRetry else if Nat.ltb n 10 then BFinish else BRetry;
      w_c := fun _ => CNext 7;
-     w_env := fun _ => None |}.
+     w_env := fun _ => None; w_guard := fun _ => false |}.
 Definition demo_ops := [OPost (TStart 0 1 (Some 5) [(0, 4%Z)]); OCycle; OPost (TStart 2 2 None []); OCycle; OCycle].
 Example C14_demo :
   rev (trace (run demoW maxloops outer_rounds demo_ops)) =
@@ -118,6 +179,20 @@ Example C14_demo :
    EvInt 1; EvCleanup 0 5 1; EvTrans true (Some 7); EvCall 7 true; EvTrans true None;
    EvPickup 2 false; EvTrans false (Some 2); EvCall 2 true; EvCall 2 false].
 Proof. vm_compute. reflexivity. Qed.
+
+(* non-vacuity of the two-thread system: start(A) and stop() complete, then a full pick-up: the stop is taken, A was
+   superseded; and a schedule in which the second thread has to wait for the lock held by the cycling thread *)
+Definition tA : task := TStart 0 1 None [].
+Definition tB : task := TStop 1.
+Example C14_conc_demo :
+  let c := crun pickup_reads_under_lock (post_steps tA ++ post_steps tB ++ [LCycle; LCycle; LCycle; LCycle; LCycle]) in
+  c_posted c = [tB; tA] /\ c_picked c = [tB] /\ c_nt c = None /\ c_lock c = None.
+Proof. vm_compute. repeat split; reflexivity. Qed.
+Example C14_conc_demo_blocked :
+  let c := crun pickup_reads_under_lock
+             (post_steps tA ++ [LCycle; LCycle; LPost tB; LPost tB; LPost tB; LCycle; LCycle; LCycle; LPost tB; LPost tB; LPost tB]) in
+  c_posted c = [tB; tA] /\ c_picked c = [tA] /\ c_nt c = Some tB /\ c_lock c = None.
+Proof. vm_compute. repeat split; reflexivity. Qed.
 
 Print Assumptions C14_source_facts.
 Print Assumptions C14_cycle_bounded.
@@ -130,4 +205,11 @@ Print Assumptions C14_attrs_frame.
 Print Assumptions C14_stop_inactive.
 Print Assumptions C14_layer_runs_the_core_machine.
 Print Assumptions C14_status_busy_while_running.
-Print Assumptions C14_status_final_when_inactive.
+Print Assumptions C14_status_final_when_inactive_except_stop_while_finishing.
+Print Assumptions C14_status_is_own_final_status.
+Print Assumptions C14_status_is_own_final_status_except_stop_while_finishing.
+Print Assumptions C14_no_request_lost.
+Print Assumptions C14_no_request_lost_explicit.
+Print Assumptions C14_picked_requests_were_posted.
+Print Assumptions C14_pending_request_is_newest.
+Print Assumptions C14_model_pickup_is_a_schedule.
